@@ -8,9 +8,11 @@ for d in seeded/*/; do
     res="not-claimed"; first=""
   elif ! git -C /repo apply --check /verif/$d/patch.diff 2>/dev/null; then res="patch-does-not-apply"; first=""
   else
+    cp evidence/$prop.json /var/tmp/evidence_$prop.bak 2>/dev/null   # evidence committed under /verif must come from the unchanged tree
     git -C /repo apply /verif/$d/patch.diff
     out=$(./check $prop --tier quick 2>&1); rc=$?
     git -C /repo checkout -- .
+    cp /var/tmp/evidence_$prop.bak evidence/$prop.json 2>/dev/null
     first=$(echo "$out" | grep -m1 "counterexample" | sed "s/.*assertion='//; s/' at.*//")
     nat=$(echo "$out" | grep -m1 "counterexample" | sed 's/.*native-replay=//')
     if [ $rc -eq 1 ]; then res="detected"; else res="missed(rc=$rc)"; fi
